@@ -154,6 +154,16 @@ def stepLine (d : D) (line : String) : D × String :=
       | some probe => (d, showFinder (finder fo best target replies probe))
       | none => bad d
     | _, _, _, _ => bad d
+  -- finder on two chains given by lengths: heights below `common` are shared, the remote has blocks up to `rbest`;
+  -- the peer answers the light scan honestly from the full anchor list
+  | ["finderf", fo, best, target, common, rbest] =>
+    match pBool fo, best.toNat?, target.toNat?, common.toNat?, rbest.toNat? with
+    | some fo, some best, some target, some common, some _ =>
+      let probe : Nat → Probe := fun i => if best < i then .localErr else if i < common then .same else .diff
+      let light := honestLightReply best (fun i => decide (i ≤ best ∧ i < common))
+      let ls := match light with | none => "nil" | some n => toString n
+      (d, s!"{showFinder (finder fo best target [light] probe)} light={if fo then "-" else ls} last={if fo then best + 1 else lastAnchorOf best}")
+    | _, _, _, _, _ => bad d
   | ["vseq", cur, kind, seq] =>
     match cur.toNat?, pKind kind, seq.toNat? with
     | some cur, some k, some seq => (d, if verifySeq cur k seq then "1" else "0")
